@@ -203,4 +203,40 @@ theorem driver_model_meets_table_spec (d : DTable) (hwf : WellFormed d) (noglob 
     specAnswered d noglob q host (observed (viewOf d) (Lookup (cfgOf noglob) (viewOf d) (toTable d) q)) = .ok :=
   model_meets_table_spec (toTable_represents d hwf.nodup) hwf (mkReq_reqOf hq) hne
 
+/-! ### the hypotheses, as the test the driver runs on every dumped table -/
+
+theorem nodup_of_nodupB {l : List C13.Str} (h : nodupB l = true) : l.Nodup := by
+  induction l with
+  | nil => exact List.nodup_nil
+  | cons x xs ih =>
+    simp only [nodupB, Bool.and_eq_true, Bool.not_eq_true'] at h
+    refine List.nodup_cons.2 ⟨?_, ih h.2⟩
+    intro hm
+    have : xs.contains x = true := by simpa using hm
+    rw [h.1] at this; cases this
+
+theorem sorted_of_sortedB {l : List DRoute} (h : sortedB l = true) : LongestFirst l := by
+  induction l with
+  | nil => exact List.Pairwise.nil
+  | cons r rs ih =>
+    simp only [sortedB, Bool.and_eq_true, List.all_eq_true, decide_eq_true_eq] at h
+    exact List.pairwise_cons.2 ⟨fun b hb => h.1 b hb, ih h.2⟩
+
+/-- the driver's test establishes the hypothesis -/
+theorem wellFormed_of_test {d : DTable} (h : wellFormedB d = true) : WellFormed d := by
+  simp only [wellFormedB, Bool.and_eq_true, List.all_eq_true, beq_iff_eq] at h
+  exact ⟨fun kv hkv => h.1.1 kv hkv, nodup_of_nodupB h.1.2, fun kv hkv => sorted_of_sortedB (h.2 kv hkv)⟩
+
+
+/-- **What `c13.http` relies on, case by case:** the dump passes the driver's test `wellFormedB` (else the case is
+reported as a broken tie, class `dump-not-wellformed`), the request is the one `mkReq` builds — then the model's answer
+meets the table specification. -/
+theorem checked_dump_meets_table_spec (d : DTable) (h : wellFormedB d = true) (noglob : Bool)
+    {host target xfp : C13.Str} {tls : Bool} {q : CReq} (hq : mkReq host target xfp tls = some q)
+    (hne : specNorm host tls ≠ []) :
+    specAnswered d noglob q host (observed (viewOf d) (Lookup (cfgOf noglob) (viewOf d) (toTable d) q)) = .ok :=
+  driver_model_meets_table_spec d (wellFormed_of_test h) noglob hq hne
+
+example : wellFormedB C13TableSpec.Ex.D = true := by decide
+
 end Fabio.Props.C13TableRep
